@@ -1,4 +1,265 @@
-(* C06 — statements are being added; see DESIGN.md section 7. *)
-From XSG.Model Require Import Strings.
-Example C06_placeholder : True. Proof. exact I. Qed.
-Print Assumptions C06_placeholder.
+(* C06 — "Extending a parsed structure with further documents of the same root yields the schema
+   (fields, optionality, multiplicity, text flags, nesting) inferred from the union of all
+   occurrences: it does not depend on the order in which the documents are supplied, is unchanged
+   by supplying a document a second time or by supplying an empty or element-less document, and
+   never drops a field, turns an Option field into a required one or a Vec field into a single
+   one.  A failed extension reports an error rather than a partial result."
+
+   Vocabulary (definitions in Proofs/UnionProofs.v, Proofs/ReprDefs.v, Model/Spec.v):
+     run_dom docs          parse(D1), extend(D2), ..., extend(Dk) on document trees (equal to the
+                           event-level `run_evs` by Properties/DomEquiv.v)
+     Repr e os             e has absorbed exactly the occurrence list os (flags, attributes, children,
+                           tags, Vec flags and nested structs are those the specification infers from os)
+     same_schema e e'      same name, text flag, attribute set with tags, child-name set, and for each
+                           child the same Option tag, Vec flag and (hereditarily) schema; field ORDER,
+                           occurrence counts and positions are not compared (`C06_same_schema_reading`)
+     le_schema e e'        e' has every attribute/child of e; Opt stays Opt, Vec stays Vec, text stays
+                           (`C06_le_schema_reading`)
+   Documents: every document has exactly one top-level element, named m (`elem_names p = [m]`), and
+   no element carries a duplicate attribute (`wf_node`, guaranteed by the reader).
+   Only statements; every proof is `exact <lemma of Proofs/...>`. *)
+From XSG.Model Require Import Strings Necessity Element Parser Dom Spec.
+From XSG.Proofs Require Import ElementProofs SpecProofs ReprDefs ParserFaults UnionProofs.
+From Coq Require Import String.
+From Coq Require Import List Permutation.
+Local Open Scope list_scope.
+
+(* ---------- what the two comparisons say ---------- *)
+Theorem C06_same_schema_reading : forall e e',
+  same_schema e e' <->
+  ename e = ename e' /\ etext e = etext e'
+  /\ (forall u b, In (u, b) (eattrs e) <-> In (u, b) (eattrs e'))
+  /\ (forall m, In m (child_names (echildren e')) -> In m (child_names (echildren e)))
+  /\ Forall (fun c => exists c', get_child (echildren e') (cname c) = Some c'
+                                 /\ fst c = fst c' /\ estandalone (snd c) = estandalone (snd c')
+                                 /\ same_schema (snd c) (snd c')) (echildren e).
+Proof. exact same_schema_unfold. Qed.
+
+Theorem C06_le_schema_reading : forall e e',
+  le_schema e e' <->
+  ename e = ename e' /\ (etext e = true -> etext e' = true)
+  /\ (forall u b, In (u, b) (eattrs e) -> exists u', In (u', b) (eattrs e') /\ (u = Opt -> u' = Opt))
+  /\ Forall (fun c => exists c', get_child (echildren e') (cname c) = Some c'
+                                 /\ (fst c = Opt -> fst c' = Opt)
+                                 /\ (estandalone (snd c) = false -> estandalone (snd c') = false)
+                                 /\ le_schema (snd c) (snd c')) (echildren e).
+Proof. exact le_schema_unfold. Qed.
+
+(* same_schema is an equivalence on trees with unique names (every parser result is one) and refines le_schema *)
+Theorem C06_same_schema_refl : forall e, Uniq e -> same_schema e e.
+Proof. exact same_schema_refl. Qed.
+Theorem C06_same_schema_sym : forall e e', Uniq e' -> same_schema e e' -> same_schema e' e.
+Proof. exact same_schema_sym. Qed.
+Theorem C06_same_schema_trans : forall e1 e2 e3, same_schema e1 e2 -> same_schema e2 e3 -> same_schema e1 e3.
+Proof. exact same_schema_trans. Qed.
+Theorem C06_same_schema_le : forall e e', same_schema e e' -> le_schema e e'.
+Proof. exact same_schema_le. Qed.
+Theorem C06_repr_uniq : forall e os, Repr e os -> Uniq e.
+Proof. exact Repr_Uniq. Qed.
+
+(* ---------- occurrence lists: the schema depends only on the SET of occurrences ---------- *)
+Theorem C06_repr_same_set : forall e e' os os',
+  Repr e os -> Repr e' os' -> ename e = ename e' -> (forall x, In x os <-> In x os') -> same_schema e e'.
+Proof. exact repr_same_set. Qed.
+
+Theorem C06_repr_perm : forall e e' os os',
+  Repr e os -> Repr e' os' -> ename e = ename e' -> Permutation os os' -> same_schema e e'.
+Proof. exact repr_perm. Qed.
+
+Theorem C06_repr_idem : forall e e' os o,
+  Repr e os -> Repr e' (os ++ [o]) -> ename e = ename e' -> In o os -> same_schema e e'.
+Proof. exact repr_idem. Qed.
+
+Theorem C06_repr_incl : forall e e' os os',
+  Repr e os -> Repr e' os' -> ename e = ename e' -> incl os os' -> le_schema e e'.
+Proof. exact repr_incl. Qed.
+
+Theorem C06_repr_mono : forall e e' os more,
+  Repr e os -> Repr e' (os ++ more) -> ename e = ename e' -> le_schema e e'.
+Proof. exact repr_mono. Qed.
+
+(* ---------- document sequences ---------- *)
+(* the result of parse + extend ... + extend represents the union (concatenation) of all root occurrences *)
+Theorem C06_union : forall docs m,
+  docs <> [] -> Forall (Forall wf_node) docs -> Forall (fun p => elem_names p = [m]) docs ->
+  exists e, run_dom docs = Some e /\ ename e = m /\ Repr e (flat_map (named m) docs).
+Proof. exact run_dom_union. Qed.
+
+Theorem C06_union_fields : forall docs m,
+  docs <> [] -> Forall (Forall wf_node) docs -> Forall (fun p => elem_names p = [m]) docs ->
+  exists e, run_dom docs = Some e /\
+    let os := flat_map (named m) docs in
+    ename e = m
+    /\ etext e = existsb has_text os
+    /\ eattrs e = spec_attrs os
+    /\ NoDup (child_names (echildren e))
+    /\ (forall n, In n (child_names (echildren e)) <-> In n (flat_map okidnames os))
+    /\ Forall (fun c => fst c = (if spec_mand (cname c) os then Mand else Opt)
+                        /\ estandalone (snd c) = spec_single (cname c) os
+                        /\ Repr (snd c) (flat_map (kids_named (cname c)) os)) (echildren e).
+Proof. exact run_dom_union_fields. Qed.
+
+(* same documents in any order and any multiplicity: both runs succeed, same schema *)
+Theorem C06_same_set : forall docs docs' m,
+  docs <> [] -> Forall (Forall wf_node) docs -> Forall (fun p => elem_names p = [m]) docs ->
+  (forall d, In d docs <-> In d docs') ->
+  exists e e', run_dom docs = Some e /\ run_dom docs' = Some e' /\ same_schema e e'.
+Proof. exact run_dom_same_set. Qed.
+
+Theorem C06_order : forall docs docs' m,
+  docs <> [] -> Forall (Forall wf_node) docs -> Forall (fun p => elem_names p = [m]) docs ->
+  Permutation docs docs' ->
+  exists e e', run_dom docs = Some e /\ run_dom docs' = Some e' /\ same_schema e e'.
+Proof. exact run_dom_order. Qed.
+
+Theorem C06_idem : forall docs d m,
+  docs <> [] -> Forall (Forall wf_node) docs -> Forall (fun p => elem_names p = [m]) docs ->
+  In d docs ->
+  exists e e', run_dom docs = Some e /\ run_dom (docs ++ [d]) = Some e' /\ same_schema e e'.
+Proof. exact run_dom_idem. Qed.
+
+(* more documents, supplied anywhere: nothing dropped, no Option -> required, no Vec -> single *)
+Theorem C06_incl : forall docs docs' m,
+  docs <> [] -> incl docs docs' ->
+  Forall (Forall wf_node) docs' -> Forall (fun p => elem_names p = [m]) docs' ->
+  exists e e', run_dom docs = Some e /\ run_dom docs' = Some e' /\ le_schema e e'.
+Proof. exact run_dom_incl. Qed.
+
+Theorem C06_monotone : forall docs more m,
+  docs <> [] ->
+  Forall (Forall wf_node) (docs ++ more) -> Forall (fun p => elem_names p = [m]) (docs ++ more) ->
+  exists e e', run_dom docs = Some e /\ run_dom (docs ++ more) = Some e' /\ le_schema e e'.
+Proof. exact run_dom_mono. Qed.
+
+(* ---------- empty / element-less documents ---------- *)
+(* event level, any fault-free stream without element events (prolog, comments, white space, nothing) *)
+Theorem C06_elementless : forall root evs,
+  has_element evs = false -> first_fault evs = None ->
+  extend_struct_ev root evs = Ok (with_pos wrapper root).
+Proof. exact extend_elementless. Qed.
+
+(* every tree returned by the parser carries a position: it comes back unchanged *)
+Theorem C06_elementless_positioned : forall root evs p,
+  has_element evs = false -> first_fault evs = None -> epos root = Some p ->
+  extend_struct_ev root evs = Ok root.
+Proof. exact extend_elementless_positioned. Qed.
+
+Theorem C06_elementless_dom : forall e top p,
+  epos e = Some p -> elem_names top = [] -> extend_struct_dom e top = Some e.
+Proof. exact extend_struct_dom_elementless. Qed.
+
+(* anywhere after the first document of a sequence: the very same tree, not only the same schema *)
+Theorem C06_elementless_run : forall docs top more m,
+  docs <> [] -> Forall (Forall wf_node) docs -> Forall (fun p => elem_names p = [m]) docs ->
+  elem_names top = [] ->
+  run_dom (docs ++ top :: more) = run_dom (docs ++ more).
+Proof. exact run_dom_elementless. Qed.
+
+(* ---------- a failed extension reports an error, not a partial result ---------- *)
+(* every stream whatsoever: Err x with x the first fault, or Ok; `outcome` has no third way to
+   carry a tree, so an Err carries none *)
+Theorem C06_error_not_partial : forall root evs,
+  (exists x, extend_struct_ev root evs = Err x /\ first_fault evs = Some x)
+  \/ (exists e', extend_struct_ev root evs = Ok e').
+Proof. exact extend_total. Qed.
+
+(* streams of the reader (no end tag at depth 0 before the first fault): Err exactly when faulty *)
+Theorem C06_error_iff : forall root evs x,
+  no_stray_end O evs = true -> (extend_struct_ev root evs = Err x <-> first_fault evs = Some x).
+Proof. exact extend_err_iff. Qed.
+
+Theorem C06_error_sticks : forall docs1 d docs2 e x,
+  docs1 <> [] -> run_evs docs1 = Ok e -> extend_struct_ev e d = Err x ->
+  run_evs (docs1 ++ d :: docs2) = Err x.
+Proof. exact run_evs_error_sticks. Qed.
+
+(* ---------- examples: the premises are satisfiable, the comparisons are not trivial ---------- *)
+Theorem C06_example_order_trees_differ :
+  run_dom [u_d1; u_d2] <> run_dom [u_d2; u_d1]
+  /\ (exists e, run_dom [u_d1; u_d2] = Some e
+                /\ map (fun c => (cname c, epos (snd c))) (echildren e)
+                   = [(s "c", Some 1%nat); (s "d", Some 2%nat); (s "b", Some 0%nat)]
+                /\ eattrs e = [(Opt, s "x"); (Opt, s "y")])
+  /\ (exists e, run_dom [u_d2; u_d1] = Some e
+                /\ map (fun c => (cname c, epos (snd c))) (echildren e)
+                   = [(s "c", Some 0%nat); (s "b", Some 2%nat); (s "d", Some 1%nat)]
+                /\ eattrs e = [(Opt, s "y"); (Opt, s "x")]).
+Proof. exact ex_order_trees_differ. Qed.
+
+Theorem C06_example_order_same_schema :
+  exists e e', run_dom [u_d1; u_d2] = Some e /\ run_dom [u_d2; u_d1] = Some e' /\ same_schema e e'.
+Proof. exact ex_order_same_schema. Qed.
+
+Theorem C06_example_idem :
+  run_dom [u_d1; u_d2] <> run_dom [u_d1; u_d2; u_d1]
+  /\ exists e e', run_dom [u_d1; u_d2] = Some e /\ run_dom ([u_d1; u_d2] ++ [u_d1]) = Some e'
+                  /\ same_schema e e'.
+Proof. exact ex_idem. Qed.
+
+Theorem C06_example_mono :
+  exists e e', run_dom [u_d1] = Some e /\ run_dom ([u_d1] ++ [u_d2]) = Some e' /\ le_schema e e'
+    /\ map (fun c => (fst c, cname c, estandalone (snd c))) (echildren e)
+       = [(Mand, s "b", true); (Mand, s "c", true)]
+    /\ map (fun c => (fst c, cname c, estandalone (snd c))) (echildren e')
+       = [(Mand, s "c", false); (Opt, s "d", true); (Opt, s "b", true)]
+    /\ eattrs e = [(Mand, s "x")] /\ eattrs e' = [(Opt, s "x"); (Opt, s "y")].
+Proof. exact ex_mono. Qed.
+
+Theorem C06_example_mono_strict :
+  exists e e', run_dom [u_d1] = Some e /\ run_dom [u_d1; u_d2] = Some e' /\ ~ le_schema e' e.
+Proof. exact ex_mono_strict. Qed.
+
+Theorem C06_example_elementless :
+  run_dom [u_d1; u_none; u_d2] = run_dom [u_d1; u_d2]
+  /\ run_dom [u_d1; []; u_d2] = run_dom [u_d1; u_d2]
+  /\ run_dom [u_none; u_d1] = None.
+Proof. exact ex_elementless_dom. Qed.
+
+Theorem C06_example_failed_extension :
+  exists e, into_struct_ev (events_of_forest u_d1) = Ok e
+    /\ extend_struct_ev e [EStart (ROk (s "a")) []; EErr 5 2; EEnd] = Err (QuickXmlError 5 2)
+    /\ run_evs [events_of_forest u_d1; [EStart (ROk (s "a")) []; EErr 5 2; EEnd]; events_of_forest u_d2]
+       = Err (QuickXmlError 5 2).
+Proof. exact ex_failed_extension. Qed.
+
+(* the name premise of C06_repr_perm / C06_repr_same_set is needed: Repr does not fix the element's own name *)
+Theorem C06_example_name_premise_needed :
+  let e := Elem (s "p") false true 0 [] [] None in
+  let e' := Elem (s "q") false true 0 [] [] None in
+  Repr e [] /\ Repr e' [] /\ Permutation (@nil node) [] /\ ~ same_schema e e'.
+Proof. exact ex_name_premise_needed. Qed.
+
+Print Assumptions C06_same_schema_reading.
+Print Assumptions C06_le_schema_reading.
+Print Assumptions C06_same_schema_refl.
+Print Assumptions C06_same_schema_sym.
+Print Assumptions C06_same_schema_trans.
+Print Assumptions C06_same_schema_le.
+Print Assumptions C06_repr_uniq.
+Print Assumptions C06_repr_same_set.
+Print Assumptions C06_repr_perm.
+Print Assumptions C06_repr_idem.
+Print Assumptions C06_repr_incl.
+Print Assumptions C06_repr_mono.
+Print Assumptions C06_union.
+Print Assumptions C06_union_fields.
+Print Assumptions C06_same_set.
+Print Assumptions C06_order.
+Print Assumptions C06_idem.
+Print Assumptions C06_incl.
+Print Assumptions C06_monotone.
+Print Assumptions C06_elementless.
+Print Assumptions C06_elementless_positioned.
+Print Assumptions C06_elementless_dom.
+Print Assumptions C06_elementless_run.
+Print Assumptions C06_error_not_partial.
+Print Assumptions C06_error_iff.
+Print Assumptions C06_error_sticks.
+Print Assumptions C06_example_order_trees_differ.
+Print Assumptions C06_example_order_same_schema.
+Print Assumptions C06_example_idem.
+Print Assumptions C06_example_mono.
+Print Assumptions C06_example_mono_strict.
+Print Assumptions C06_example_elementless.
+Print Assumptions C06_example_failed_extension.
+Print Assumptions C06_example_name_premise_needed.
